@@ -14,6 +14,10 @@ REPR = [OK, dict(OK, status=500, ctype="other", body="text"), dict(OK, exc="conn
 IDCS = ["str", "int", "int0", "strEmpty", "strDigit"]
 
 
+def _run_real(plans):
+    return http_drv.run_real_socket(plans)
+
+
 def _run(chunk):
     return http_drv.run_sequences(chunk)
 
@@ -73,6 +77,15 @@ def check_c11(ctx):
         seqs.append(s + [probe])
     chunks = [seqs[i:i + 100] for i in range(0, len(seqs), 100)]
     traces = [t for ch in par.pmap(_run, chunks, chunksize=1) for t in ch]
+    # a few sequences over a real loopback socket with the real clock: a POST the server never
+    # answers must end in a synthesised terminal within the configured timeout, and the next
+    # request must still be served (the scripted httpx transport cannot stall)
+    plans = [["ok", "stall", "ok"], ["stall", "stall", "ok"], ["lateAnswer", "ok"]] * (1 if quick else 4)
+    real = [t for ch in par.pmap(_run_real, [[p] for p in plans], jobs=4, chunksize=1) for t in ch]
+    ctx.cov["real_socket_sequences"] = len(real)
+    for p, t in zip(plans, real):
+        seqs.append([{"kind": "request", "idc": "int", "beh": e["beh"], "real": k} for k, e in zip(p, t)])
+        traces.append(t)
     res = validate.validate("HttpTransportTrace", traces, CONSTS, work=os.path.join(ctx.work, "val"), chunk=400)
     if res["rejected"]:
         i = sorted(res["rejected"])[0]
